@@ -36,13 +36,14 @@ TRUSTED_BASE = [
     "Coq 8.16.1 kernel; vm_compute for evaluating the model on generated histories and for the _refuted witnesses",
     "hand-written model coq/C08/Model.v (Program register accounting incl. can_follow, ModeMap/_remap_modes/alloc/dealloc axis "
     "bookkeeping, Gaussian and bosonic `active` lists with their guards, slot selection of the three state() methods), tied to "
-    "/repo by exact correspondence on generated histories at engine level (gaussian, fock) and backend-API level (all three)",
+    "/repo by exact correspondence on generated histories at engine level (gaussian, fock; bosonic on single-segment "
+    "histories) and backend-API level (all three)",
     "abstraction of simulator content to one integer per mode (coherent displacement in units of 0.05; BSgate(pi/2,0) as the "
     "two-mode gate; measurement = reset to vacuum); the per-mode fingerprint <x>/0.1 is decoded with tolerance 0.2 units",
     "harness tools/props/c08.py (drivers, generators, signature classification, Python copy of the specification used as the "
     "search oracle; the copy is compared with the Coq specification run_spec on every generated history)",
-    "the bosonic ENGINE path (BosonicBackend.run_prog / init_circuit pre-pass, re-initialisation per segment) is not modelled in "
-    "Coq: it is covered by the failing-input search only (three recorded findings live there)",
+    "the bosonic ENGINE re-initialises its circuit for every later non-empty program segment (recorded finding "
+    "bosonic:engine:segment-reinit); this is not modelled in Coq: multi-segment bosonic histories are judged by the search only",
 ]
 ASSUMPTIONS = [
     "histories use integer or RegRef mode references; negative integers are not generated at backend-API level "
@@ -53,12 +54,12 @@ ASSUMPTIONS = [
     "Fock backend: cutoff 4, at most 4-5 live modes, |data| <= 4 units so that truncation stays below the decoding tolerance",
 ]
 MANIFEST_TEXT = ("C08 (proof): for ALL histories of New/Del/gate/measure/segment operations the modelled Program register, Fock "
-                 "ModeMap+tensor axes and Gaussian `active` list are proved to be functions of one finite map index -> live data "
-                 "(refinement by induction over histories): index for life, register = get_modes, rejection of dead/unknown/"
-                 "repeated modes without effect, Fock axis bijection and Fock state content are FULL; Gaussian state content is "
-                 "_partial (live set a prefix / no Del; _refuted witness otherwise; the repaired slot selection is proved full); "
-                 "bosonic circuit theorems are _partial (every New creates one mode; _refuted for New(2)); the bosonic engine "
-                 "pre-pass is outside the model (search + known findings only). Model tied to /repo by exact correspondence.")
+                 "ModeMap+tensor axes and Gaussian / bosonic `active` lists are proved to be functions of one finite map index -> "
+                 "live data (refinement by induction over histories): index for life, register = get_modes, rejection of dead/"
+                 "unknown/repeated modes without effect, Fock axis bijection and state content (exactly the live modes, index "
+                 "order, own label, own data) are FULL for all three backends; theorems about the pre-fix behaviour (*_old "
+                 "definitions) are kept as _partial/_refuted. Not in the model: the bosonic engine's per-segment "
+                 "re-initialisation (known finding, search only). Model tied to /repo by exact correspondence.")
 
 DELTA = 0.05
 XUNIT = 0.1
@@ -594,19 +595,16 @@ def _accepted(case, upto):
     return acc
 
 
-def bosonic_features(case, pos):
-    """Known weak spots of the bosonic engine path hit by the segment run at `pos` (a Seg)."""
-    feats = []
+def bosonic_reinit(case, pos):
+    """True when the segment run at `pos` (a Seg) is a non-empty segment that follows an earlier non-empty one on
+    the bosonic engine: BosonicBackend.run_prog then calls init_circuit -> begin_circuit again (recorded finding)."""
     acc = dict(_accepted(case, pos))
-    # segment ops accepted by the program
     j = pos - 1
     seg = []
     while j >= 0 and case["ops"][j][0] != "Seg":
         if j in acc:
             seg.append(case["ops"][j])
         j -= 1
-    seg.reverse()
-    # earlier segments with commands
     earlier_nonempty = False
     cur = []
     for p in range(0, j + 1):
@@ -617,59 +615,30 @@ def bosonic_features(case, pos):
             cur = []
         elif p in acc:
             cur.append(o)
-    if seg and (j >= 0):
-        # a non-empty later segment re-runs init_circuit -> begin_circuit
-        feats.append("segment-reinit")
-    first_non_new = next((i for i, o in enumerate(seg) if o[0] != "New"), None)
-    if seg and seg[0][0] == "New":
-        feats.append("new-first")
-    if any(o[0] == "New" and o[1] >= 2 for o in seg):
-        feats.append("new-multi")
-    return feats, seg
+    return bool(seg) and earlier_nonempty
 
 
 def classify_error(case, pos, icode, detail):
     be, level = case["backend"], case["level"]
     op = case["ops"][pos]
-    if be == "bosonic" and level == "engine" and op[0] == "Seg":
-        feats, _ = bosonic_features(case, pos)
-        if "new-first" in feats and "UnboundLocalError" in str(detail):
-            return "bosonic:engine:new-first:UnboundLocalError"
-        if "segment-reinit" in feats:
-            return "bosonic:engine:segment-reinit"
-        if "new-multi" in feats:
-            return "bosonic:engine:new-multi"
+    if be == "bosonic" and level == "engine" and op[0] == "Seg" and bosonic_reinit(case, pos):
+        return "bosonic:engine:segment-reinit"
     return "%s:%s:valid-op-raised:%s:%s" % (be, level, op[0], icode)
 
 
 def classify_modes(case, pos, io, so):
     be, level = case["backend"], case["level"]
-    if be == "bosonic" and level == "engine":
-        feats, _ = bosonic_features(case, pos)
-        if "segment-reinit" in feats:
-            return "bosonic:engine:segment-reinit"
-        if "new-multi" in feats:
-            return "bosonic:engine:new-multi"
-    if be == "bosonic" and level == "api":
-        # BosonicModes.add_mode(n>=2) appends a single `active` entry
-        if any(o[0] == "New" and o[1] >= 2 for o in case["ops"][:pos + 1]):
-            return "bosonic:api:add_mode-multi:active-one-entry"
+    if be == "bosonic" and level == "engine" and case["ops"][pos][0] == "Seg" and bosonic_reinit(case, pos):
+        return "bosonic:engine:segment-reinit"
     return "%s:%s:get_modes" % (be, level)
 
 
 def classify_state(case, pos, io, so):
     be, level = case["backend"], case["level"]
-    if be == "bosonic" and level == "engine":
-        feats, _ = bosonic_features(case, pos)
-        if "segment-reinit" in feats:
-            return "bosonic:engine:segment-reinit"
-        if "new-multi" in feats:
-            return "bosonic:engine:new-multi"
-    if be == "bosonic" and level == "api":
-        if any(o[0] == "New" and o[1] >= 2 for o in case["ops"][:pos + 1]):
-            return "bosonic:api:add_mode-multi:active-one-entry"
+    if be == "bosonic" and level == "engine" and case["ops"][pos][0] == "Seg" and bosonic_reinit(case, pos):
+        return "bosonic:engine:segment-reinit"
     if be == "gaussian" and isinstance(io[3], list):
-        # known: labels right, data read from slots 0..#live-1 of the un-compacted matrices
+        # the defect fixed by /repo 23cb098, should it come back: labels right, data read from slots 0..#live-1
         s = [0] * case["n"]
         for op in case["ops"][:pos + 1]:
             t = spec_step(s, op)
@@ -768,12 +737,18 @@ def correspondence(ctx):
     rng = ctx.rng
     seen = set()
     plan = [("engine", "gaussian", ctx.budget(120, 1500)), ("engine", "fock", ctx.budget(60, 500)),
+            ("engine", "bosonic", ctx.budget(60, 600)),
             ("api", "gaussian", ctx.budget(80, 800)), ("api", "fock", ctx.budget(50, 400)),
             ("api", "bosonic", ctx.budget(80, 800))]
-    cases = [c for c in corpus_cases() if (c["level"], c["backend"]) != ("engine", "bosonic")]
+
+    def single_segment(c):
+        return sum(1 for o in c["ops"] if o[0] == "Seg") <= 1
+
+    # the bosonic ENGINE is tied to the model on single-segment histories only (segment re-initialisation is a finding)
+    cases = [c for c in corpus_cases() if (c["level"], c["backend"]) != ("engine", "bosonic") or single_segment(c)]
     for level, be, cnt in plan:
         for _ in range(cnt):
-            cases.append(gen_history(rng, be, level))
+            cases.append(gen_single_segment(rng, be) if (level, be) == ("engine", "bosonic") else gen_history(rng, be, level))
     impls = [run_impl(c) for c in cases]
     shard = 400
     for si in range(0, len(cases), shard):
@@ -831,7 +806,7 @@ def search(ctx):
     for level, be, cnt in plan:
         for _ in range(cnt):
             if be == "bosonic" and level == "engine" and rng.random() < 0.6:
-                cases.append(gen_bosonic_safe(rng))
+                cases.append(gen_single_segment(rng, "bosonic"))
             else:
                 cases.append(gen_history(rng, be, level, bad_first=(level == "api")))
     # the same history on all backends (differential)
@@ -845,64 +820,63 @@ def search(ctx):
                     o[1] = o[1][:1]
                     o[2] = "homodyne"
             cases.append(c)
-    if not ctx.quick:
-        count = 0
-        for n in (1, 2):
-            for length in (1, 2, 3):
-                for h in enumerate_histories(n, length, n + 1):
-                    for be in ("gaussian", "fock"):
-                        if be == "fock" and max_live(n, h) > LIVE_CAP["fock"] + 1:
-                            continue
-                        ops_ = [o if o[0] != "Meas" else ["Meas", o[1], "fock" if be == "fock" else "homodyne"] for o in h]
-                        cases.append({"backend": be, "level": "engine", "n": n, "ops": ops_ + [["Seg", None]], "npseed": 1,
-                                      "styles": ["ref"] * (len(ops_) + 1)})
-                        count += 1
-        ctx.notes.append("enumerated %d small engine histories (n<=2, length<=3, gaussian+fock)" % count)
-    for c in cases:
+    def judge(c, bkt):
         impl = run_impl(c)
         spec = spec_trace(c["n"], c["ops"])
-        ctx.case({"case": c}, nontrivial=nontrivial(c), bucket="search/" + bucket(c))
+        ctx.case({"case": c}, nontrivial=nontrivial(c), bucket=bkt)
         note_stats(ctx, c)
         fails = predicate_failures(c, impl, spec)
         if fails:
             report(ctx, c, fails, seen)
 
+    for c in cases:
+        judge(c, "search/" + bucket(c))
 
-def gen_bosonic_safe(rng):
-    """Bosonic engine histories that avoid the recorded weak spots: one segment, every New is New(1)
-    and comes after some other command — here the property must hold outright."""
-    while True:
-        c = gen_history(rng, "bosonic", "engine", malformed=0.15)
-        ops_, styles = [], []
-        used = False
-        for o, st in zip(c["ops"], c["styles"]):
-            if o[0] == "Seg":
-                continue
-            if o[0] == "New":
-                if not used:
+    if not ctx.quick:
+        import time as _time
+
+        def enum_case(be, n, h):
+            ops_ = [o if o[0] != "Meas" else ["Meas", o[1], "fock" if be == "fock" else "homodyne"] for o in h]
+            return {"backend": be, "level": "engine", "n": n, "ops": ops_ + [["Seg", None]], "npseed": 1,
+                    "styles": ["ref"] * (len(ops_) + 1)}
+
+        small = [["New", 1], ["Del", [0]], ["Del", [1]], ["Disp", 0, 1], ["Disp", 1, 2], ["Swap", 0, 1], ["Swap", 1, 0], ["Seg", None]]
+        # (backend, n, length, alphabet): full alphabet = enumerate_histories; "small" = the 8 operations above
+        plan_enum = [(be, n, L, "full") for be in ("gaussian", "bosonic") for n in (1, 2) for L in (1, 2, 3)]
+        plan_enum += [("fock", 1, 1, "full"), ("fock", 1, 2, "full"), ("fock", 1, 3, "full"), ("fock", 2, 1, "full"), ("fock", 2, 2, "full")]
+        plan_enum += [("gaussian", 1, 4, "full"), ("bosonic", 1, 4, "full"), ("fock", 2, 3, "full"), ("gaussian", 1, 5, "small"),
+                      ("gaussian", 2, 4, "small"), ("bosonic", 2, 4, "small"), ("fock", 1, 4, "small")]
+        done = []
+        for be, n, L, alpha in plan_enum:
+            if _time.time() - ctx.t0 > ctx.budget(0, 720):
+                ctx.notes.append("enumeration stopped by the time guard before (%s, n=%d, length %d, %s)" % (be, n, L, alpha))
+                break
+            import itertools as _it
+            gen = enumerate_histories(n, L, n + 1) if alpha == "full" else ([list(o) for o in combo] for combo in _it.product(small, repeat=L))
+            cnt = 0
+            for h in gen:
+                if be == "bosonic" and any(o[0] == "Seg" for o in h):
+                    continue     # bosonic engine: single-segment histories (see finding segment-reinit)
+                if be == "fock" and max_live(n, h) > LIVE_CAP["fock"] + 1:
                     continue
-                o = ["New", 1]
-            ops_.append(o)
-            styles.append(st)
-            if o[0] != "New":
-                used = True
-        # re-validate against the specification: dropped operations may invalidate later ones, which is fine
-        c["ops"] = ops_ + [["Seg", None]]
-        c["styles"] = styles + ["int"]
-        # `used` must refer to a command the Program accepts
-        s = [0] * c["n"]
-        okprefix = True
-        seen_cmd = False
-        for o in ops_:
-            t = spec_step(s, o)
-            if o[0] == "New" and not seen_cmd:
-                okprefix = False
-            if t is not None:
-                s = t
-                if o[0] != "New":
-                    seen_cmd = True
-        if okprefix and ops_:
-            return c
+                judge(enum_case(be, n, copy.deepcopy(h)), "enum/%s/n%d/len%d/%s" % (be, n, L, alpha))
+                cnt += 1
+            done.append("%s n=%d len=%d %s: %d" % (be, n, L, alpha, cnt))
+        ctx.notes.append("exhaustively enumerated engine histories: " + "; ".join(done))
+
+
+def gen_single_segment(rng, backend):
+    """Engine history with all the commands in ONE program segment (the bosonic engine re-initialises its circuit
+    for every later non-empty segment — recorded finding — so this is where the property must hold outright)."""
+    while True:
+        c = gen_history(rng, backend, "engine", malformed=0.15)
+        pairs = [(o, st) for o, st in zip(c["ops"], c["styles"]) if o[0] != "Seg"]
+        if not pairs:
+            continue
+        c["ops"] = [o for o, _ in pairs] + [["Seg", None]]
+        c["styles"] = [st for _, st in pairs] + ["int"]
+        # the live cap is still respected: removing boundaries does not change which commands are valid
+        return c
 
 
 def replay(ctx, data):
